@@ -1,5 +1,5 @@
 SPECIFICATION Spec
 CONSTANTS
   NMarks = 3
-INVARIANTS UntilOk
+INVARIANTS UntilOk DayOk
 CHECK_DEADLOCK FALSE
